@@ -1,6 +1,29 @@
 use rig::report::Tier;
 
+struct StderrLog;
+impl log::Log for StderrLog {
+    fn enabled(&self, m: &log::Metadata) -> bool {
+        m.level() <= log::max_level()
+    }
+    fn log(&self, r: &log::Record) {
+        if self.enabled(r.metadata()) {
+            eprintln!("[{}] {}", r.level(), r.args());
+        }
+    }
+    fn flush(&self) {}
+}
+static LOGGER: StderrLog = StderrLog;
+
 fn main() {
+    if let Ok(l) = std::env::var("VERIF_LOG") {
+        let _ = log::set_logger(&LOGGER);
+        log::set_max_level(match l.as_str() {
+            "debug" => log::LevelFilter::Debug,
+            "info" => log::LevelFilter::Info,
+            "warn" => log::LevelFilter::Warn,
+            _ => log::LevelFilter::Error,
+        });
+    }
     rig::seams::init_determinism();
     rig::exec::install_panic_hook();
     let args: Vec<String> = std::env::args().collect();
@@ -30,9 +53,12 @@ fn main() {
     let tier = Tier { thorough, seed };
     let code = match prop.as_str() {
         "C01" => rig::props::c01::main(tier, replay),
+        "C02" => rig::props::c02::main(tier, replay),
         "C03" => rig::props::c03::main(tier, replay),
         "C04" => rig::props::c04::main(tier, replay),
         "C05" => rig::props::c05::main(tier, replay),
+        "C07" => rig::props::c07::main(tier, replay),
+        "debug-rich" => rig::props::c07::debug_rich(),
         "selftest" => rig::props::c03::selftest(),
         _ => {
             eprintln!("unknown property {}", prop);
